@@ -24,7 +24,14 @@
 // the `R` line of mode `slots` and
 //   B <force hex x3> <normal hex x3> <curvature hex> <coupled cell node | - -> <closest squared distance hex> …
 // for EVERY node slot, used or not, raw (what a released slot holds after node::reset is part of the compared state).
-// usage: h_solver <param.xml> <iters> <threads> <dump_every> [tx ty tz (hex)] [full|run|tissue|slots|tslots]
+// with the mode word `pslots` (C14, assembled tissue iteration with remeshing AND removal of cells) the output is that of `tslots` with one
+// more line `I <solver::max_cell_id_>` behind `J` (the `C` lines carry cell id and local id as in every mode).
+// with the mode word `dslots` (C14, assembled tissue iteration with DIVISION) the cells are exact copies of the initialised cells in the subclass
+// `probe_epi` of `epithelial_cell` (overrides the virtuals `get_cell_same_type` — same body, probe class, attempt counted — and
+// `update_face_types` — forwards to the base after the hook); the output is that of `pslots`, and in every iteration in which `cell_divider::run`
+// called `divide_cell` the hook (first `update_face_types` call of the iteration = right after `cell_divider::run`) prints the WHOLE list as the
+// divider left it:  `DS <iteration> <attempts>`, `J`, `I`, per cell `C`, `R`, `B`, closed by `DE`.
+// usage: h_solver <param.xml> <iters> <threads> <dump_every> [tx ty tz (hex)] [full|run|tissue|slots|tslots|pslots|dslots]
 #include "proto.hpp"
 #include "simulation_initializer.hpp"
 #include "solver.hpp"
@@ -155,7 +162,39 @@ public:
     double time() const { return time_integrator_ptr_->get_simulation_time(); }
     unsigned iteration() const { return iteration_; }
     unsigned file_number() const { return file_number_; }
+    unsigned max_cell_id() const { return max_cell_id_; }
 };
+
+// ---------------------------------------------------------------- mode `dslots`: observe the list right after cell_divider::run
+static stepping_solver* g_solver = nullptr;
+static long g_last_hook_iter = -1;
+static unsigned g_attempts = 0;          // calls of get_cell_same_type since the last hook (two per divide_cell that reached create_daughter_cells)
+static void hook_after_divider();
+class probe_epi : public epithelial_cell {
+public:
+    explicit probe_epi(const epithelial_cell& c) : epithelial_cell(c) {}
+    probe_epi(const mesh& m, unsigned id, cell_type_param_ptr t) noexcept : epithelial_cell(m, id, t) {}
+    cell_ptr get_cell_same_type(const mesh& m) noexcept(false) override {
+        g_attempts++;
+        return std::make_shared<probe_epi>(m, cell_id_, cell_type_);     // the body of epithelial_cell::get_cell_same_type with the probe class
+    }
+    void update_face_types() noexcept override { hook_after_divider(); epithelial_cell::update_face_types(); }
+};
+static void hook_after_divider(){
+    if(g_solver == nullptr) return;
+    const long it = g_solver->iteration();
+    if(it == g_last_hook_iter) return;
+    g_last_hook_iter = it;
+    if(g_attempts == 0) return;
+    std::cout << "DS " << it << ' ' << g_attempts << '\n' << "J " << g_solver->file_number() << '\n' << "I " << g_solver->max_cell_id() << '\n';
+    for(cell_ptr c : g_solver->get_cell_lst()){
+        cell_tester::dump(c, false);
+        cell_tester::dump_slots(c);
+        cell_tester::dump_attrs_raw(c);
+    }
+    std::cout << "DE\n";
+    g_attempts = 0;
+}
 
 static std::string exc_name(const std::exception& e){
     if(dynamic_cast<const mesh_integrity_exception*>(&e)) return "integrity";
@@ -182,8 +221,15 @@ int main(int argc, char** argv){
         if(translate){
             for(cell_ptr c : cells){ cell_tester::translate(c, t); c->initialize_cell_properties(false); }
         }
+        if(mode == "dslots"){
+            for(size_t i = 0; i < cells.size(); i++){
+                auto e = std::dynamic_pointer_cast<epithelial_cell>(cells[i]);
+                if(e){ auto p = std::make_shared<probe_epi>(*e); p->set_face_owner_cell(); cells[i] = p; }
+            }
+        }
         {
             stepping_solver s(sim_init.get_simulation_parameters(), cells, threads, true, false);
+            if(mode == "dslots") g_solver = &s;
             if(mode == "run"){
                 s.run();
                 std::cout << "S " << s.iteration() << ' ' << to_hex(s.time()) << ' ' << s.get_cell_lst().size() << '\n';
@@ -193,16 +239,17 @@ int main(int argc, char** argv){
                 for(int i = 0; i <= iters; i++){
                     if(i % every == 0 || i == iters){
                         std::cout << "S " << s.iteration() << ' ' << to_hex(s.time()) << ' ' << s.get_cell_lst().size() << '\n';
-                        if(mode == "slots" || mode == "tslots") std::cout << "J " << s.file_number() << '\n';
+                        if(mode == "slots" || mode == "tslots" || mode == "pslots" || mode == "dslots") std::cout << "J " << s.file_number() << '\n';
+                        if(mode == "pslots" || mode == "dslots") std::cout << "I " << s.max_cell_id() << '\n';
                         for(cell_ptr c : s.get_cell_lst()){
-                            cell_tester::dump(c, mode != "tslots");
+                            cell_tester::dump(c, mode != "tslots" && mode != "pslots" && mode != "dslots");
                             if(mode == "tissue") cell_tester::dump_contact_state(c);
-                            if(mode == "slots" || mode == "tslots") cell_tester::dump_slots(c);
-                            if(mode == "tslots") cell_tester::dump_attrs_raw(c);
+                            if(mode == "slots" || mode == "tslots" || mode == "pslots" || mode == "dslots") cell_tester::dump_slots(c);
+                            if(mode == "tslots" || mode == "pslots" || mode == "dslots") cell_tester::dump_attrs_raw(c);
                         }
                     }
                     if(i == iters || s.get_cell_lst().empty()) break;
-                    if(mode == "slots" || mode == "tslots"){
+                    if(mode == "slots" || mode == "tslots" || mode == "pslots" || mode == "dslots"){
                         try{ s.run_iteration(); }
                         catch(const std::exception& e){ std::cout << "X " << exc_name(e) << '\n'; break; }
                     }
@@ -210,6 +257,7 @@ int main(int argc, char** argv){
                 }
             }
             std::cout << "END\n";
+            g_solver = nullptr;
         }   // the solver (and with it the contact model / statistics writer held through base pointers) is destroyed here
         std::cout << "DESTROYED\n";
     }
